@@ -20,7 +20,7 @@ def _SchemaFromExpress(text):
 
 HERE = os.path.dirname(os.path.abspath(__file__))
 VERIF = os.path.dirname(HERE)
-EXTRACTORS = ["stepfile", "instmgr", "attrnull", "enums"]
+EXTRACTORS = ["stepfile", "instmgr", "attrnull", "enums", "threading"]
 
 
 def schema_lines(schema):
@@ -245,7 +245,7 @@ def run_case(ctx, h, m, schema, files, strict, workdir, tag, layout_rng=None):
         open(path, "w").write(G.render(schema.name, pop, layout_rng))
         op = "read" if fi == 0 else "append"
         reads_h.append(kv(h.cmd(f"{op} {path}")))
-        reads_m.append(kv(m.cmd(f"{op} " + " | ".join(G.encode_inst(i) for i in pop))))
+        reads_m.append(kv(m.cmd(f"{op} " + " | ".join(G.encode_inst(i, schema) for i in pop))))
         dumps.append((h.cmd("dump"), m.cmd("dump")))
     outp = os.path.join(workdir, f"{tag}_out.p21")
     wr = kv(h.cmd(f"write {outp} 0"))
